@@ -6,7 +6,7 @@
 use super::*;
 use crate::op::verif_support::*;
 
-//@h {"id":"C04.K.guard.threshold","props":["C04","C09"],"tier":"quick","kind":"complete","timeout":600,"text":"nesting_too_deep() holds exactly when the recursion level exceeds 100, for every level (all usize)"}
+//@h {"id":"C04.K.guard.threshold","props":["C04","C09"],"tier":"quick","kind":"complete","timeout":1800,"text":"nesting_too_deep() holds exactly when the recursion level exceeds 100, for every level (all usize)"}
 #[kani::proof]
 #[kani::unwind(4)]
 fn c04_guard_threshold() {
